@@ -96,10 +96,16 @@ func markPreexisting() {
 	buf := make([]byte, 1<<20)
 	n := runtime.Stack(buf, true)
 	for _, g := range strings.Split(string(buf[:n]), "\n\n") {
-		if strings.Contains(g, "interp.runCfg") {
+		if isInterpGoroutine(g) {
 			preexisting[goroutineID(g)] = true
 		}
 	}
+}
+
+// a goroutine executing interpreted code, or the background goroutine of a *WithContext call (which may
+// still be compiling)
+func isInterpGoroutine(g string) bool {
+	return strings.Contains(g, "interp.runCfg") || strings.Contains(g, "WithContext.func1")
 }
 
 func goroutineID(g string) string {
@@ -115,7 +121,7 @@ func interpGoroutines() (states []string, dump string) {
 	n := runtime.Stack(buf, true)
 	all := string(buf[:n])
 	for _, g := range strings.Split(all, "\n\n") {
-		if !strings.Contains(g, "interp.runCfg") || preexisting[goroutineID(g)] {
+		if !isInterpGoroutine(g) || preexisting[goroutineID(g)] {
 			continue
 		}
 		dump += g + "\n\n"
